@@ -90,6 +90,7 @@ def _check_permute_exact(ctx, X, A, p, kind):
 @cell("C07/permute/tensor", strategy=_perm_dense, quick=1500, thorough=20000)
 def permute_tensor(ctx, case):
     X = gen.build_tensor(case)
+    ctx.label("prov-grown" if gen.is_grown(X) else "prov-ctor")
     _check_permute_exact(ctx, X, gen.arr_F(case["shape"], case["data"]), case["perm"], "tensor")
 
 
@@ -240,6 +241,7 @@ def _nt_reshape(old, new):
 @cell("C07/reshape/tensor", strategy=_reshape_dense, quick=1500, thorough=20000)
 def reshape_tensor(ctx, case):
     X = gen.build_tensor(case)
+    ctx.label("prov-grown" if gen.is_grown(X) else "prov-ctor")
     A = gen.arr_F(case["shape"], case["data"])
     new = case["new"]
     ctx.nt = _nt_reshape(case["shape"], new)
